@@ -164,7 +164,7 @@ def prog(kind: int, at_ctor: bool, k: int, last_is_update: bool, o1: int, v1: in
         check('C08.nested_mirrors', t.z == [srcs[st['zsrc']].v, 7], info)
         check('C08.other_links_alive', t.w == s1.v, dict(info, per_instance_false=True))
         for i, s in enumerate(srcs):
-            need = 1 if (st['xsrc'] == i or st['ysrc'] == i or st['zsrc'] == i) else 0
+            need = 1 if (st['xsrc'] == i or st['ysrc'] == i or st['zsrc'] == i or i == 1) else 0      # w follows s1 throughout
             check('C08.no_stale_watcher', _nwatch(s, t) == need, dict(info, src=i, have=_nwatch(s, t), need=need))
 
 
